@@ -63,6 +63,9 @@ def scatterAux : List Rat → List Bool → List Rat → List Rat
 def maskScatter (x : List Rat) (m : List Bool) (vals : List Rat) : Option (List Rat) :=
   if m.length = x.length ∧ vals.length = countTrue m then some (scatterAux x m vals) else none
 
+/-- `np.sum(v)` -/
+def vsum (v : List Rat) : Rat := v.foldl (· + ·) 0
+
 /-- `v.max()` / `v.min()` of a non-empty vector (ValueError on an empty one: `none`) -/
 def vmax : List Rat → Option Rat
   | [] => none
